@@ -3,13 +3,13 @@ package main
 // Symbolic executor over go/ssa.
 
 import (
-	"os"
 	"fmt"
 	"go/constant"
 	"go/token"
 	"go/types"
 	"math"
 	"math/big"
+	"os"
 	"strings"
 
 	"golang.org/x/tools/go/ssa"
@@ -51,6 +51,7 @@ type Exec struct {
 	opaqueN   int
 	initOrder []*ssa.Package
 	cellN     int
+	spec      int // >0 while speculatively executing both arms of a diamond
 	transcr   map[string]*big.Int
 }
 
@@ -471,7 +472,7 @@ func pureInstr(ins ssa.Instruction) bool {
 		}
 		return true
 	case *ssa.UnOp:
-		return x.Op != token.MUL && x.Op != token.ARROW
+		return x.Op != token.ARROW
 	case *ssa.Convert:
 		_, _, ok1 := intWidth(x.Type())
 		_, _, ok2 := intWidth(x.X.Type())
@@ -479,6 +480,9 @@ func pureInstr(ins ssa.Instruction) bool {
 	case *ssa.ChangeType:
 		return true
 	case *ssa.DebugRef:
+		return true
+	case *ssa.IndexAddr, *ssa.FieldAddr, *ssa.Field, *ssa.Index, *ssa.Extract:
+		// side-effect free; may trap, in which case the speculative execution is abandoned
 		return true
 	}
 	return false
@@ -537,10 +541,16 @@ func (e *Exec) tryMerge(fr *frame, blk *ssa.BasicBlock, c *Term) (*ssa.BasicBloc
 	}
 	ok := true
 	func() {
+		e.spec++
 		defer func() {
+			e.spec--
 			if r := recover(); r != nil {
 				if _, is := r.(mergeFail); is {
 					ok = false
+					return
+				}
+				if pe, is := r.(*pathEnd); is && pe.kind == "panic" {
+					ok = false // an arm may trap: fork instead
 					return
 				}
 				panic(r)
